@@ -219,6 +219,24 @@ def chs_roundtrip(run, tier):
             w.root = saved_root
         if r2 != "PidRefsDoesNotExist":
             bad.append(("client-cannot-open-api-created-store", r2 + " " + out2))
+        # create-store verb on an EXISTING store: same verdict as the API constructor with those properties
+        for dd, expect in ((d, "ok"), (d + 1, "ValueError")):
+            F2.trace = []
+            w.root = lambda: "/c"
+            try:
+                r3, out3 = run_client(w, C, ["-chs", "-dp=%d" % dd, "-wp=%d" % wd, "-ap=" + algo, "-nsp=" + ns,
+                                             "-retrieveobject", "-pid=unknown"])
+            finally:
+                w.root = saved_root
+            try:
+                w.M.FileHashStore(dict(store_path="/c", store_depth=dd, store_width=wd, store_algorithm=algo,
+                                       store_metadata_namespace=ns))
+                api = "ok"
+            except Exception as e:   # noqa
+                api = type(e).__name__
+            got = "ok" if r3 == "PidRefsDoesNotExist" else r3
+            if got != api or api != expect:
+                bad.append(("client-create-store-on-existing-store-differs-from-api", "client=%s api=%s depth=%d" % (r3, api, dd)))
         run.case(("chs", d, wd, algo), dict(create_store=(d, wd, algo), client_created=r, client_opened_api_store=r2))
         run.oblige(not bad)
         if bad:
